@@ -53,7 +53,7 @@ CHECKS = {
             "Every recorded run ends as accept or documented syntax error (never crash / nil / TypeError); on conflict-free grammars the error comes exactly when the first token that cannot continue any sentence has been fetched, and nothing after it is requested.",
             "Conflict-free is the specification's judgement; divergence on conflicted grammars is a don't-care.", "5 C06"),
     "C07": ("model_checking",
-            "Trace validation: TLC re-evaluates the semantic actions (EvalAct in RunTrace.tla) bottom-up along the replayed derivation and compares with the value the generated parser returned",
+            "Trace validation: TLC re-evaluates the semantic actions (EvalAct in RunTrace.tla) bottom-up along the replayed derivation and compares with the value the generated parser returned; text level: the cases of the generated reduce function of all five variants, for arbitrary action texts, against the substitution defined in ReduceCode.tla (ConfReduceCode.tla; scanner machine ReduceScan.tla model-checked against the function)",
             "Random tags and arithmetic/concatenating actions over random subsets of $1..$n, rules of length 0..4+, all five variants; wrong slot, wrong field, wrong pop count or stale stack contents change the value.",
             "Token values depend on position and kind so that slots are distinguishable.", "5 C07"),
     "C08": ("model_checking",
